@@ -60,8 +60,9 @@ SameStrategy(s, t) == s = t
 DistanceFacts == {"in_unit_interval", "not_nan", "zero_iff_equal", "symmetric"}
 
 \* ------------------------------------------------------------------- import
-\* weights: [k |-> Int] (the integer k times the scale class of the whole list), or a token
-ValidWeight(w) == w \notin {"nan", "inf", "ninf"} /\ w.k >= 0
+\* weights: [t |-> "num", k |-> Int] (the integer k times the scale class of the whole list), or
+\* [t |-> "nan" | "inf" | "ninf", k |-> 0]
+ValidWeight(w) == w.t = "num" /\ w.k >= 0
 WeightOf(w) == w.k
 
 MultiNames(side) == {side.multi[i].name : i \in 1..Len(side.multi)}
